@@ -6,6 +6,7 @@ INVARIANT FillComputeBinds
 INVARIANT BlankRejected
 INVARIANT AttrIsAbsent
 INVARIANT CbfOnlyFillInto
+INVARIANT TruthIrrelevant
 INVARIANT Monotone
 INVARIANT LogWithinCaps
 INVARIANT RepeatedUse
